@@ -50,6 +50,11 @@ def gen_datagrams(rng, n):
             out.append(("long-utf8-field", N.enc_req(N.RRQ, "victim.bin", mode=("a" * lead + ch * 60).encode())))
             out.append(("long-utf8-field", N.enc_error(1, ("a" * lead + ch * 150).encode())))
             out.append(("long-utf8-field", N.enc_req(N.RRQ, "victim.bin", options=[("a" * lead + ch * 40, "1")])))
+    # names that resolve to a directory, to the served directory itself, or to nothing at all
+    for nm in ("", "/", "\\", ".", "./", "//", "sub", "sub/", "sub/.", "..", "../", " ", "\t", "victim.bin/", "victim.bin/x"):
+        for kind in (N.RRQ, N.WRQ):
+            out.append(("odd-name", N.enc_req(kind, nm)))
+            out.append(("odd-name", N.enc_req(kind, nm, options=[("blksize", 512), ("tsize", 0)])))
     # abandoned uploads: accepted, then the client never sends anything (the worker lingers for 6 x timeout), followed
     # by further requests for the same names
     for _ in range(12):
@@ -219,17 +224,19 @@ def flood(srv, scenario, count, rng):
 
 def one_run(tftpd, flavor, single, rw, dgrams, sb, rng_seed):
     ro = rw == "read-only"
-    ow = rw == "overwrite"
+    ow = rw.startswith("overwrite")
+    dotdir = rw.endswith("dot-dir")     # served directory given as `.`, the working directory is the sandbox
     """returns dict(result) ; feeds datagrams in batches of 64 with a probe after each"""
     rng = random.Random(rng_seed)
     content = N.keyed_content("probe", 700)
     write(os.path.join(sb["srv"], "probe.bin"), content)
     write(os.path.join(sb["srv"], "victim.bin"), N.keyed_content("victim", 700))
+    write(os.path.join(sb["srv"], "sub", "inner.bin"), b"inner")
     cfg = f"{flavor}/{'single' if single else 'multi'}/{rw}"
     res = {"cfg": cfg, "sent": 0, "probes": 0, "failure": None, "labels": {}, "replies": {}}
 
     def fresh():
-        srv = N.Server(tftpd, sb["srv"], single=single, read_only=ro, overwrite=ow, logdir=sb["logs"], tag=f"c05-{flavor}")
+        srv = N.Server(tftpd, "." if dotdir else sb["srv"], single=single, read_only=ro, overwrite=ow, logdir=sb["logs"], tag=f"c05-{flavor}", cwd=sb["srv"] if dotdir else None)
         srv.start()
         return srv
 
@@ -364,9 +371,9 @@ def thread_limit_run(tftpd, single, sb):
             if not ok:
                 res["outcome"] = "not-started"
                 return res
+            socks = [N._sock(timeout=0.1) for _ in range(20)]     # few descriptors: other threads of this check use select()
             for i in range(1000):
-                s = N._sock(timeout=0.1)
-                socks.append(s)
+                s = socks[i % len(socks)]
                 s.sendto(N.enc_req(N.RRQ if i % 3 else N.WRQ, "probe.bin" if i % 3 else f"tl{i}.bin", options=[("timeout", 1)]), srv.addr)
                 res["requests"] += 1
                 if i % 50 == 49:
@@ -401,7 +408,7 @@ def run(tier):
     with concurrent.futures.ThreadPoolExecutor(max_workers=12) as ex:
         for fl in flavors:
             for single in (False, True):
-                for ro in ("read-only", "writable", "overwrite"):
+                for ro in ("read-only", "writable", "overwrite") + (("overwrite/dot-dir",) if fl == "release" else ()):
                     k += 1
                     rng = random.Random(C.seed() * 131 + k)
                     dgrams = gen_datagrams(rng, n)
@@ -443,18 +450,20 @@ def run(tier):
            "rule": "hostile datagrams (random bytes 0..1500 and up to 65507, opcode prefixes, truncations / NUL removal / byte mutations / splices of valid packets of all six kinds, valid requests with option values at 0,1,7,8,65464,65465,2^16,2^31,2^32,2^36,2^40,2^63,2^64-1,2^64,-1,+5,007,1e3,'',abc in every case spelling, alone and combined) are sent from 8 source sockets to one long-lived server per (build, port mode, read-only) in a seeded order; after every 64 datagrams a liveness probe (canonical RRQ must return the exact 700-byte file, from the listening port in single-port mode) and the process exit status are checked; a failing batch is bisected on fresh servers. Transfers started by hostile requests are cancelled with ERROR. Finally the endpoint of a live transfer sends 12000 well-formed datagrams that are no answer (DATA after the OACK, OACK after DATA 1, ACK 7 after a WRQ, a mix; 300 repeated requests) without a pause, then a probe. Thread limit: a server in a PID namespace with pid_max 400 receives 1000 simultaneous requests; it must stay alive and serve the probe once the accepted transfers have given up. distinct_nontrivial = probes answered + distinct (configuration, datagram class) pairs.",
            "samples": [{"config": r["cfg"], "datagrams": r["sent"], "probes_passed": r["probes"], "classes": r["labels"]} for r in results[:3]],
            "exhaustive": False, "datagram_classes": labels, "replies_seen": replies, "probes": probes, "servers": len(results), "thread_limit_scenario": [{k: r.get(k) for k in ("cfg", "requests", "outcome", "refused_for_lack_of_threads")} for r in tl_results] or "skipped: PID namespaces with their own pid_max are not available here", "source_endpoints": sum(r.get("sources", 0) for r in results)}
-    return v.finish(cov, ["thread/descriptor exhaustion by thousands of simultaneous accepted transfers is outside the property (workers are cancelled)", "server-internal thread schedules are sampled, not controlled"])
+    return v.finish(cov, ["the thread-limit scenario bounds threads only; exhaustion of memory or descriptors by thousands of simultaneous accepted transfers is not driven (workers are cancelled)", "server-internal thread schedules are sampled, not controlled"])
 
 
 def replay(rec):
     """re-sends the bisected datagram to a fresh server of the same configuration and probes it"""
     r = rec["replay"]
-    fl, mode, rw = r["config"].split("/")
+    fl, mode, rw = r["config"].split("/", 2)
+    dotdir = rw.endswith("dot-dir")
     ctx = Ctx("C05", "quick", flavors=(fl,))
     sb = ctx.sandbox("c05replay")
     content = N.keyed_content("probe", 700)
     write(os.path.join(sb["srv"], "probe.bin"), content)
-    srv = N.Server(ctx.bins[fl]["tftpd"], sb["srv"], single=(mode == "single"), read_only=(rw == "read-only"), overwrite=(rw == "overwrite"), logdir=sb["logs"]).start()
+    write(os.path.join(sb["srv"], "victim.bin"), N.keyed_content("victim", 700))
+    srv = N.Server(ctx.bins[fl]["tftpd"], "." if dotdir else sb["srv"], single=(mode == "single"), read_only=(rw == "read-only"), overwrite=rw.startswith("overwrite"), logdir=sb["logs"], cwd=sb["srv"] if dotdir else None).start()
     try:
         if r.get("flood"):
             flood(srv, r["flood"]["scenario"], r["flood"]["count"], random.Random(1))
